@@ -164,7 +164,7 @@ def oracle_dir(runs):
                 # died while answering the first write after the restart: nothing to verify in this run
                 pending.append((mk["cmd"], "lost", None))
                 if r.get("death") == "unexpected-exit" or r["spec"] in ("final",):
-                    fails.append(dict(name="diedafterstart-d%d-r%d" % (r["dir"], r["run"]), case=dict(ident, log=(r.get("log") or "")[-3000:]),
+                    fails.append(dict(name="diedafterstart-d%d-r%d" % (r["dir"], r["run"]), case=dict(ident, log_head=(r.get("log") or "")[:3000], log=(r.get("log") or "")[-2000:]),
                                       what="the restarted node died on the first write without a crash being injected"))
                     return fails, stats
                 for o in r["ops"] or []:
